@@ -29,6 +29,12 @@ CHECKS = {
         text="Random histories of insert / re-insert / typed, ANY and unchecked lookup / prune / clock advance (second and sub-second steps around each TTL) run against SharedCache and Cache on a virtual clock; after every lookup the result is judged against the model (never past TTL, reported TTL <= time left, live records returned exactly once, data unchanged) and after every step the stored set equals the model.",
         note="Hooks H1 (virtual clock) and H4 (snapshot) are trusted to be faithful; sub-second remainders are a stated tolerance.",
         ref="DESIGN.md §4 C05"),
+    "C06": dict(
+        level="exploration",
+        technique=PBT + "; validity predicate over adversarial replies fed to the reply filter directly (hook H3) and end to end through resolve() with a scripted mock transport (hook H2) followed by a provenance sweep of the cache",
+        text="Adversarial replies (on/off-path and duplicate CNAMEs, NS for non-ancestors or with foreign owners, shallower/equal/deeper NS, glue for named and unnamed hosts, unknown types/classes, in every section) are judged against a validity predicate of what may be accepted for the question and match count; end to end, scripted reply sequences with header faults are played to the recursive resolver and every record that ends up in the answer or the cache must be traceable by its tag to a reply without header fault and be relevant to the question that reply answered.",
+        note="Only-direction (soundness of what is accepted); completeness is C07's. Record tags are TTL values under a frozen cache clock.",
+        ref="DESIGN.md §4 C06"),
     "C07": dict(
         level="exploration",
         technique=PBT + "; simulated DNS universe behind a mock transport (hook H2), differential against a globally computed ground truth; sessions of questions sharing one cache",
